@@ -35,6 +35,29 @@ DICT_VALUED = {
     "Supertrend": ["trend", "direction", "long", "short"],
 }
 MOVEMENTS = sorted(MOVEMENT_MAP)
+
+
+# Analysis callables a USER of the library would write for Amorph (not shipped functions): each looks
+# at a bounded window ending at `index`, like the shipped ones.
+def user_close_delta(candles, index, **_):
+    if index < 1:
+        return None
+    return candles[index].close - candles[index - 1].close
+
+
+def user_range_mean(candles, index, length=4, **_):
+    if index + 1 < length:
+        return None
+    return sum(candles[i].high - candles[i].low for i in range(index - length + 1, index + 1)) / length
+
+
+def user_body_dict(candles, index, **_):
+    c = candles[index]
+    return {"body": abs(c.close - c.open), "up": c.close >= c.open}
+
+
+USER_ANALYSES = {"user:close_delta": user_close_delta, "user:range_mean": user_range_mean,
+                 "user:body_dict": user_body_dict}
 PATTERNS = sorted(PATTERN_MAP)
 PRICE_FIELDS = ["open", "high", "low", "close"]
 
@@ -215,6 +238,9 @@ def _mk_dict_caps(row):
 def _mk_dict_iso(row):
     d = mk_dict(row)
     d["timestamp"] = stamp(row[0]).isoformat()
+    if TZ_OFFSET_MIN == 0 and (row[0] // 60) % 2 == 0:
+        # the other ISO-8601 spelling of UTC (what JSON producers emit); the same instant and offset
+        d["timestamp"] = d["timestamp"].replace("+00:00", "Z")
     return d
 
 
@@ -272,7 +298,7 @@ def build(spec, rows=None):
     if rows is not None:
         kw["candles"] = mk_candles(rows)
     if spec["cls"] == "Amorph":
-        fn = (PATTERN_MAP | MOVEMENT_MAP)[spec["analysis"]]
+        fn = (PATTERN_MAP | MOVEMENT_MAP | USER_ANALYSES)[spec["analysis"]]
         return hx_ind.Amorph(analysis=fn, **kw)
     return cls_of(spec["cls"])(**kw)
 
@@ -336,6 +362,12 @@ def sample_members(rng, k, timeframes=(None,), allow_amorph=True, max_period=12,
                 spec["common"]["tf_as_enum"] = True
             elif r < 0.3:
                 spec["common"]["tf_lower"] = True
+            elif r < 0.42:
+                # the same span spelled in another unit (H1 as T60): a different timeframe NAME, hence its
+                # own candle manager and its own indicator name, with identical buckets
+                from .world import equiv_spelling
+
+                spec["common"]["timeframe"] = equiv_spelling(tf)
         name = member_name(spec)
         if name in names or any(helper_collision(spec, o) for o in out):
             continue
